@@ -717,15 +717,16 @@ __CPROVER_loop_invariant(!g_has_prev || LT(g_pb, g_pd))
 __CPROVER_loop_invariant(vp_st <= @st_infinite@ && vp_st != @st_state1down@ && (vp_st != 0 || data_n == 1))
 __CPROVER_loop_invariant(__CPROVER_forall { size_t k; (0 <= k && k < NMAX - 1) ==> ((k + 1 < data_n) ==> ((k % 2 == 0) ? LT(data[k], data[k + 1]) : LT(data[k + 1], data[k]))) })
 __CPROVER_loop_invariant(__CPROVER_forall { size_t k; (0 <= k && k < NMAX - 2) ==> ((k + 2 < data_n) ==> ((k % 2 == 0) ? LT(data[k], data[k + 2]) : LT(data[k + 2], data[k]))) })
+__CPROVER_loop_invariant(__CPROVER_forall { size_t k; (0 <= k && k < NMAX) ==> (k >= data_n || data[k] == data[k]) })
 __CPROVER_loop_invariant(vp_st != @st_state1@ || data_n == 1)
 __CPROVER_loop_invariant(vp_st != @st_state12@ || data_n == 2)
-__CPROVER_loop_invariant(vp_st != @st_state12down@ || (data_n < @it@ && data_n == 2 && LT(@v@, data[1])))
+__CPROVER_loop_invariant(vp_st != @st_state12down@ || (@v@ == @v@ && data_n < @it@ && data_n == 2 && LT(@v@, data[1])))
 __CPROVER_loop_invariant(vp_st != @st_state132@ || (data_n >= 3 && data_n % 2 == 1))
-__CPROVER_loop_invariant(vp_st != @st_state132up@ || (data_n < @it@ && data_n >= 3 && data_n % 2 == 1 && LT(data[data_n - 1], @v@)))
+__CPROVER_loop_invariant(vp_st != @st_state132up@ || (@v@ == @v@ && data_n < @it@ && data_n >= 3 && data_n % 2 == 1 && LT(data[data_n - 1], @v@)))
 __CPROVER_loop_invariant(vp_st != @st_state312@ || (data_n >= 4 && data_n % 2 == 0))
-__CPROVER_loop_invariant(vp_st != @st_state312down@ || (data_n < @it@ && data_n >= 4 && data_n % 2 == 0 && LT(@v@, data[data_n - 1])))
-__CPROVER_loop_invariant(vp_st != @st_up@ || (data_n < @it@ && data_n % 2 == 1 && LT(data[data_n - 1], @v@)))
-__CPROVER_loop_invariant(vp_st != @st_down@ || (data_n < @it@ && data_n >= 2 && data_n % 2 == 0 && LT(@v@, data[data_n - 1])))
+__CPROVER_loop_invariant(vp_st != @st_state312down@ || (@v@ == @v@ && data_n < @it@ && data_n >= 4 && data_n % 2 == 0 && LT(@v@, data[data_n - 1])))
+__CPROVER_loop_invariant(vp_st != @st_up@ || (@v@ == @v@ && data_n < @it@ && data_n % 2 == 1 && LT(data[data_n - 1], @v@)))
+__CPROVER_loop_invariant(vp_st != @st_down@ || (@v@ == @v@ && data_n < @it@ && data_n >= 2 && data_n % 2 == 0 && LT(@v@, data[data_n - 1])))
 __CPROVER_loop_invariant(vp_st != @st_endup@ || (@it@ == @stop@ && data_n >= 2 && data_n % 2 == 0))
 __CPROVER_loop_invariant(vp_st != @st_enddown@ || (@it@ == @stop@ && data_n % 2 == 1))
 __CPROVER_loop_invariant(vp_st != @st_infinite@ || (@it@ == @stop@ && data_n == 1))
